@@ -589,6 +589,10 @@ func ExecuteRec(c *Case, w World, runSeed uint64, replayTape []int64, replay boo
 	return res, env.Rec
 }
 
+// PreSetup runs inside the bubble before a world is set up (re-initialisation of
+// package-level state of the code under test that depends on the clock).
+var PreSetup func()
+
 func execute(c *Case, w World, runSeed uint64, replayTape []int64, replay bool, tracing bool, envOut **Env) *Result {
 	res := &Result{RunSeed: runSeed, Probes: map[string]int64{}, Faults: map[string]int64{}, Ops: c.NumOps()}
 	e := &Env{Case: c, Cfg: c.Sched, Res: res, Start: time.Now(), Tracing: tracing}
@@ -611,6 +615,9 @@ func execute(c *Case, w World, runSeed uint64, replayTape []int64, replay bool, 
 				e.HarnessError(fmt.Sprintf("panic on scheduler goroutine: %v\n%s", r, debug.Stack()))
 			}
 		}()
+		if PreSetup != nil {
+			PreSetup()
+		}
 		w.Setup(e)
 		e.Loop(w)
 	}()
